@@ -732,6 +732,9 @@ func (g *c14Gen) cmd() []B {
 			return bs(n("nosuchcmd"), g.key("s"), w())
 		}
 	}
+	if r.Bool(0.3) {
+		return g.moreCmd()
+	}
 	switch r.Intn(40) {
 	case 0, 1, 2:
 		return bs(n("set"), g.key("s"), w())
@@ -803,6 +806,97 @@ func (g *c14Gen) cmd() []B {
 		return bs(n("ping"))
 	}
 	return bs("ping")
+}
+
+// moreCmd: the rest of the command table (deterministic commands only), so that
+// "for every command" is not limited to the forty most common shapes.
+func (g *c14Gen) moreCmd() []B {
+	r := g.r
+	w := g.word
+	n := g.name
+	idx := func() string { return pick(r, []string{"0", "1", "-1", "2", "-2", "5"}) }
+	switch r.Intn(40) {
+	case 0:
+		return bs(n("lset"), g.key("l"), idx(), w())
+	case 1:
+		return bs(n("lrem"), g.key("l"), pick(r, []string{"0", "1", "-1"}), w())
+	case 2:
+		return bs(n("ltrim"), g.key("l"), idx(), idx())
+	case 3:
+		return bs(n("lpos"), g.key("l"), w())
+	case 4:
+		return bs(n("lmove"), g.key("l"), g.key("l"), pick(r, []string{"left", "right", "LEFT"}), pick(r, []string{"left", "right", "RIGHT"}))
+	case 5:
+		return bs(n(pick(r, []string{"lpushx", "rpushx"})), g.key("l"), w())
+	case 6:
+		return bs(n(pick(r, []string{"lpop", "rpop"})), g.key("l"), pick(r, []string{"1", "2", "0"}))
+	case 7:
+		return bs(n("hdel"), g.key("h"), w(), w())
+	case 8:
+		return bs(n("hincrby"), g.key("h"), "n", pick(r, []string{"1", "-3", "9223372036854775807"}))
+	case 9:
+		return bs(n("hincrbyfloat"), g.key("h"), "fl", pick(r, []string{"0.5", "-1.25", "2"}))
+	case 10:
+		return bs(n("hsetnx"), g.key("h"), w(), w())
+	case 11:
+		return bs(n("hmget"), g.key("h"), w(), w(), "n")
+	case 12:
+		return bs(n("hvals"), g.key("h"))
+	case 13:
+		return bs(n("hexists"), g.key("h"), w())
+	case 14:
+		return bs(n("hstrlen"), g.key("h"), w())
+	case 15:
+		return bs(n("smove"), g.key("t"), g.key("t"), w())
+	case 16:
+		return bs(n(pick(r, []string{"sunion", "sinter", "sdiff"})), g.key("t"), g.key("t"))
+	case 17:
+		return bs(n(pick(r, []string{"sunionstore", "sinterstore", "sdiffstore"})), g.key("t"), g.key("t"), g.key("t"))
+	case 18:
+		return bs(n("zrem"), g.key("z"), w())
+	case 19:
+		return bs(n("zrank"), g.key("z"), w())
+	case 20:
+		return bs(n("zrange"), g.key("z"), "0", "-1", pick(r, []string{"withscores", "rev", "REV"}))
+	case 21:
+		return bs(n("zadd"), g.key("z"), pick(r, []string{"nx", "xx", "gt", "ch", "incr"}), pick(r, []string{"1", "2.5", "-1"}), w())
+	case 22:
+		return bs(n("xrange"), g.key("x"), "-", "+")
+	case 23:
+		return bs(n("xadd"), g.key("x"), pick(r, []string{"maxlen", "MAXLEN"}), "2", fmt.Sprintf("%d-2", 1+g.seq), w(), w())
+	case 24:
+		return bs(n("setrange"), g.key("s"), pick(r, []string{"0", "3", "10"}), w())
+	case 25:
+		return bs(n("getrange"), g.key("s"), idx(), idx())
+	case 26:
+		return bs(n("incrbyfloat"), g.key("n"), pick(r, []string{"0.5", "-2.25", "3"}))
+	case 27:
+		return bs(n(pick(r, []string{"decr", "incr"})), g.key("n"))
+	case 28:
+		return bs(n("decrby"), g.key("n"), pick(r, []string{"4", "-2"}))
+	case 29:
+		return bs(n("set"), g.key("s"), w(), pick(r, []string{"nx", "xx", "get", "NX", "GET"}))
+	case 30:
+		return bs(n("del"), g.key("s"), g.key("l"), g.key("h"))
+	case 31:
+		return bs(n("exists"), g.key("s"), g.key("s"), g.key("t"))
+	case 32:
+		return bs(n("rename"), g.key(pick(r, []string{"l", "h", "t", "z"})), g.key(pick(r, []string{"l", "h", "s"})))
+	case 33:
+		return bs(n("keys"), pick(r, []string{"*", "s*", "?0", "[a-z]*", "*\\**"}))
+	case 34:
+		return bs(n("hkeys"), g.key("h"))
+	case 35:
+		return bs(n("lindex"), g.key("l"), idx())
+	case 36:
+		return bs(n("lrange"), g.key("l"), idx(), idx())
+	case 37:
+		return bs(n("sismember"), g.key("t"), w())
+	case 38:
+		return bs(n("persist"), g.key("s"))
+	default:
+		return bs(n("ttl"), g.key("s"))
+	}
 }
 
 func genC14(rng *core.Rand, env *core.Env, run int) *Scenario {
